@@ -37,3 +37,4 @@ def price_guard_in_allocate(chk):
         ok = sym.lit_holds(g, ("zero", sym._abs_norm(sym.to_rat(p))), False) and sym.lit_holds(g, ("isnan", canon(p)), False)
         chk.ob("C10.R1", ok, CORE, host, "guard:nan-or-zero-price:%s" % e.name, "a trade at a missing or zero price raises before anything is sized or booked", where=e.where,
                expected="raise under is_zero(price) or isnan(price)", found=sym.fmt_guard(e.guard)[:200])
+    core_rules.refresh_before_trade(chk, "C10")
